@@ -5,6 +5,9 @@ package encoder
 
 import (
 	"sync"
+	"unsafe"
+
+	"github.com/goccy/go-json/internal/verifhook"
 )
 
 var setsMu sync.RWMutex
@@ -16,11 +19,14 @@ func CompileToGetCodeSet(ctx *RuntimeContext, typeptr uintptr) (*OpcodeSet, erro
 		if err != nil {
 			return nil, err
 		}
+		verifhook.EncBind(typeptr, unsafe.Pointer(codeSet.Type))
 		return getFilteredCodeSetIfNeeded(ctx, codeSet)
 	}
 	index := (typeptr - typeAddr.BaseTypeAddr) >> typeAddr.AddrShift
 	setsMu.RLock()
+	verifhook.Point(1, unsafe.Pointer(&cachedOpcodeSets[index]), false)
 	if codeSet := cachedOpcodeSets[index]; codeSet != nil {
+		verifhook.EncBind(typeptr, unsafe.Pointer(codeSet.Type))
 		filtered, err := getFilteredCodeSetIfNeeded(ctx, codeSet)
 		if err != nil {
 			setsMu.RUnlock()
@@ -39,7 +45,9 @@ func CompileToGetCodeSet(ctx *RuntimeContext, typeptr uintptr) (*OpcodeSet, erro
 	if err != nil {
 		return nil, err
 	}
+	verifhook.EncBind(typeptr, unsafe.Pointer(codeSet.Type))
 	setsMu.Lock()
+	verifhook.Point(2, unsafe.Pointer(&cachedOpcodeSets[index]), true)
 	cachedOpcodeSets[index] = codeSet
 	setsMu.Unlock()
 	return filtered, nil
